@@ -395,6 +395,9 @@ func hasVariadicParameter(funType reflect.Type) bool {
 func convTypeToTarget(source interface{}, target reflect.Type) (interface{}, error) {
 	switch target.Kind() {
 	case reflect.Interface:
+		if source != nil && !reflect.TypeOf(source).AssignableTo(target) {
+			return nil, fmt.Errorf("convTypeToTarget %T not conv to %v", source, target)
+		}
 		return source, nil
 	case reflect.Array, reflect.Slice:
 		return convArrayTypeToTarget(source, target)
